@@ -149,12 +149,16 @@ struct Scenario {
     /// a second run (fresh supplier, same dirs) with this script afterwards
     then: Option<Script>,
     timeout_ms: u64,
+    /// no file of this process may grow beyond this many bytes while the download runs (RLIMIT_FSIZE with
+    /// SIGXFSZ ignored: the write that would cross the limit is cut short / fails with EFBIG, like a full disk or
+    /// an exhausted quota). Only used in the sandboxed `disk-quota` space (one worker process per chunk).
+    fsize_limit: Option<u64>,
 }
 impl Scenario {
     fn json(&self) -> Value {
         json!({"class": self.class, "kind": format!("{:?}", self.kind), "servers": self.scripts.iter().map(|s| s.label.clone()).collect::<Vec<_>>(),
                "cancel_after_event": self.cancel_after, "preexisting_cache_entry": self.preexisting.is_some(), "broken_dirs": self.broken_dirs,
-               "then": self.then.as_ref().map(|s| s.label.clone())})
+               "then": self.then.as_ref().map(|s| s.label.clone()), "file_size_quota": self.fsize_limit})
     }
 }
 
@@ -217,7 +221,7 @@ fn n_lines(body: &[u8]) -> usize {
 
 fn scenarios(tier: Tier) -> Vec<Scenario> {
     let mut v: Vec<Scenario> = vec![];
-    let base = |class: &str, kind: Kind, scripts: Vec<Script>| Scenario { class: class.into(), kind, scripts, cancel_after: None, preexisting: None, broken_dirs: 0, then: None, timeout_ms: 60_000 };
+    let base = |class: &str, kind: Kind, scripts: Vec<Script>| Scenario { class: class.into(), kind, scripts, cancel_after: None, preexisting: None, broken_dirs: 0, then: None, timeout_ms: 60_000, fsize_limit: None };
     let bodies: Vec<Vec<u8>> = if tier == Tier::Thorough {
         vec![BODY.to_vec(), BODY.iter().map(|&b| b).chain(b"FUNC 3000 10 0 other\n3000 10 7 1\n".iter().copied()).collect(), b"MODULE a b c d\nPUBLIC 10 0 x\n".to_vec()]
     } else {
@@ -519,7 +523,12 @@ fn check_scenario_inner(sc: &Scenario, l: &mut Local) {
     }
     let mut last_ok: Option<(LocateSymbolsResult, Vec<u8>)> = None;
     for (scripts, cancel) in steps {
-        let (res, logs, urls) = match guard(|| run_once(&sc.kind, scripts, cancel, &cache, &tmp, sc.timeout_ms)) {
+        let restore = sc.fsize_limit.map(set_file_size_limit);
+        let ran = guard(|| run_once(&sc.kind, scripts, cancel, &cache, &tmp, sc.timeout_ms));
+        if let Some(old) = restore {
+            set_file_size_limit(old);
+        }
+        let (res, logs, urls) = match ran {
             Ok(x) => x,
             Err(p) => {
                 l.panic_violation(&p, json!({"scenario": sc.json()}));
@@ -589,7 +598,10 @@ fn check_scenario_inner(sc: &Scenario, l: &mut Local) {
                     }
                     want.extend_from_slice(format!("INFO URL {url}\n").as_bytes());
                 }
-                if cf.len() != 1 || cf[0].0 != rel {
+                if sc.fsize_limit.is_some() && cf.is_empty() {
+                    // the quota cut the cache copy: caching is optional, the download itself must still succeed
+                    l.outcome("disk-quota: no cache entry");
+                } else if cf.len() != 1 || cf[0].0 != rel {
                     fail(l, "cache-entry-count-or-path", format!("after an Ok run the cache holds {:?}, expected exactly [{rel}]", cf.iter().map(|f| &f.0).collect::<Vec<_>>()));
                 } else if cf[0].1 != want && Some(&cf[0].1) != want_sep.as_ref() {
                     fail(l, "cache-content", format!("cache file ({} bytes) is not the downloaded bytes{} ({} bytes)", cf[0].1.len(), if sc.kind == Kind::Symbols { " followed by the INFO URL note" } else { "" }, want.len()));
@@ -604,7 +616,9 @@ fn check_scenario_inner(sc: &Scenario, l: &mut Local) {
                         if direct != r.symbols {
                             fail(l, "downloaded-table-differs", "symbol table from the download differs from parsing the same bytes at once".into());
                         }
-                        last_ok = Some((r, cf.first().map(|f| f.1.clone()).unwrap_or_default()));
+                        if !cf.is_empty() {
+                            last_ok = Some((r, cf.first().map(|f| f.1.clone()).unwrap_or_default()));
+                        }
                     }
                     RunResult::File(Ok(p)) => {
                         if p != cache.join(&rel) {
@@ -648,6 +662,34 @@ fn check_scenario_inner(sc: &Scenario, l: &mut Local) {
             Err(p) => l.panic_violation(&p, json!({"scenario": sc.json(), "step": "offline reload"})),
         }
     }
+}
+
+/// Sets the soft RLIMIT_FSIZE of this process (SIGXFSZ ignored) and returns the previous soft limit.
+fn set_file_size_limit(limit: u64) -> u64 {
+    unsafe {
+        libc::signal(libc::SIGXFSZ, libc::SIG_IGN);
+        let mut cur = libc::rlimit { rlim_cur: 0, rlim_max: 0 };
+        assert_eq!(libc::getrlimit(libc::RLIMIT_FSIZE, &mut cur), 0, "harness: getrlimit");
+        let old = cur.rlim_cur;
+        cur.rlim_cur = limit.min(cur.rlim_max);
+        assert_eq!(libc::setrlimit(libc::RLIMIT_FSIZE, &cur), 0, "harness: setrlimit");
+        old
+    }
+}
+
+/// disk-quota scenarios: the whole body is delivered, but no file may grow past `limit` bytes: every limit from 0
+/// to body + note (the cut falls inside the body copy, exactly at its end, at every byte of the note, or nowhere)
+fn quota_scenarios() -> Vec<Scenario> {
+    let note_len = 160u64; // longer than any note written here ("INFO URL http://127.0.0.1:<port>/<rel>?code_file=..&code_id=..")
+    let mut v = vec![];
+    let mut limits: Vec<u64> = vec![0, 1, BODY.len() as u64 / 2, BODY.len() as u64 - 1];
+    limits.extend((0..=note_len).map(|k| BODY.len() as u64 + k));
+    for limit in limits {
+        for framing in ["content-length", "chunked"] {
+            v.push(Scenario { class: "disk-quota".into(), kind: Kind::Symbols, scripts: vec![script_full(framing, BODY)], cancel_after: None, preexisting: None, broken_dirs: 0, then: None, timeout_ms: 60_000, fsize_limit: Some(limit) });
+        }
+    }
+    v
 }
 
 /// one supplier, the same file asked for twice: the second answer is the first (memoised), whether the first
@@ -707,7 +749,7 @@ fn main() {
         let mut def = CheckDef::new(
             "C16",
             "fault_enumeration",
-            "every scenario of a finite script space is run against the real HttpSymbolSupplier over loopback TCP: connection cut after EVERY byte count of the body under content-length / chunked / close-delimited framing; every two-chunk split; 1-byte and 7-byte trickles; each line corrupted; missing final newline; a body with its own INFO URL line; a line longer than the parser window; error and redirect statuses; stall until the client timeout; client future dropped after each server event (at several split points) once the client has quiesced; pre-existing cache entry; unusable cache / tmp directories; two servers (first fails in 5 ways); failure-then-success histories; the same cuts and cancellations for opaque file downloads (binary, extra debug info). After each run cache/ and tmp/ are walked; after each success a fresh supplier with a dead server reloads from the cache. distinct_nontrivial = distinct (scenario class, outcome, cache file count, tmp file count, cached size).",
+            "every scenario of a finite script space is run against the real HttpSymbolSupplier over loopback TCP: connection cut after EVERY byte count of the body under content-length / chunked / close-delimited framing; every two-chunk split; 1-byte and 7-byte trickles; each line corrupted; missing final newline; a body with its own INFO URL line; a line longer than the parser window; error and redirect statuses; stall until the client timeout; client future dropped after each server event (at several split points) once the client has quiesced; pre-existing cache entry; unusable cache / tmp directories; two servers (first fails in 5 ways); failure-then-success histories; a file-size quota (RLIMIT_FSIZE in sandboxed workers) that cuts the cache copy at every byte from 0 to body + note (inside the body, exactly at its end, inside the note); the same cuts and cancellations for opaque file downloads (binary, extra debug info). After each run cache/ and tmp/ are walked; after each success a fresh supplier with a dead server reloads from the cache. distinct_nontrivial = distinct (scenario class, outcome, cache file count, tmp file count, cached size).",
         );
         def.assumptions = vec![
             "poll boundaries inside hyper/tokio are owned by the runtime and are not enumerated; cancellation points are 'after each server event, once the client made no progress for 20 ms' (the awaits of fetch_symbol_file: send(), each chunk())".into(),
@@ -717,6 +759,9 @@ fn main() {
         ];
         let (s1, s2) = (scs.clone(), scs.clone());
         def.spaces.push(Space::new("scenarios", scs.len() as u64, move |i, l| check_scenario(&s1[i as usize], l), move |i| s2[i as usize].json()).chunked(4).wall(60_000));
+        let qs = Arc::new(quota_scenarios());
+        let (q1, q2) = (qs.clone(), qs.clone());
+        def.spaces.push(Space::new("disk-quota", qs.len() as u64, move |i, l| check_scenario(&q1[i as usize], l), move |i| q2[i as usize].json()).sandboxed(Sandbox { wall_ms: 60_000, hard_cap: 1 << 30, chunk: 32 }));
         def.spaces.push(Space::new("file-memo", 4, check_file_memo, |i| json!({"file_kind": (if i % 2 == 0 { "Binary" } else { "ExtraDebugInfo" }), "first_request_fails": i / 2 == 1})).chunked(1).wall(120_000));
         def
     })
